@@ -93,9 +93,10 @@ theorem afterChild_ok (p : Params K) (pv : p.Valid) (tg : Target K) (h l : Nat) 
   simp only [Shape] at hs
   obtain ⟨hl, hk, hmin, hmax, hkids⟩ := hs
   obtain ⟨hlt, hget⟩ := List.getElem?_eq_some_iff.mp hchild
-  obtain ⟨keys3, kids3, lf, inf, setSep, lastUp, hac, hro⟩ := afterChild_pre p pv tg h l keys kids ctx cctx slot r hl hk
+  obtain ⟨keys3, kids3, lf, inf, hac, hro, _⟩ := afterChild_pre p pv tg h l keys kids ctx cctx slot r hl hk
     hslot hkids child hchild hc1 hc2 hc3 hc4 hr
-  obtain ⟨out, hfo, ho1, ho2, ho3, ho4, ho5, ho6⟩ := finishInner_nonroot p h l keys3 kids3 ctx hc setSep lastUp
+  obtain ⟨out, hfo, ho1, ho2, ho3, ho4, ho5, ho6⟩ := finishInner_nonroot p h l keys3 kids3 ctx hc
+    (reportSep ctx.sepAbove r.lastUp) (reportUp ctx.sepAbove r.lastUp)
     (r.leafFree + lf) (r.innerFree + inf)
   refine ⟨out, by rw [hac, hfo], ?_⟩
   obtain ⟨ic, hic, hflat, hhit⟩ := hr.flat
@@ -407,7 +408,7 @@ theorem eraseTop_ok (p : Params K) (pv : p.Valid) (tg : Target K) (t : Tree K V)
         rw [hres'] at h3
         cases h3
         have hrok := hok' r rfl
-        obtain ⟨keys3, kids3, lf, inf, setSep, lastUp, hac, hro⟩ := afterChild_pre p pv tg h (h + 1) keys kids {} cctx s r rfl hk
+        obtain ⟨keys3, kids3, lf, inf, hac, hro, _⟩ := afterChild_pre p pv tg h (h + 1) keys kids {} cctx s r rfl hk
           hsl hkids kids[s] (List.getElem?_eq_getElem hlt) hc1 hc2 hc3 hc4 hrok
         simp only
         rw [hac]
